@@ -17,8 +17,7 @@ Proof. intros HN Hd nu V.
   pose (z := fun (_ : nat * nat) (_ : nat) => 0). pose (l := fun (_ : nat * nat) (_ : nat -> R) (_ : nat) => 0).
   apply (certificate n d theta [] z l l N HN Hd).
   - intros e [].
-  - intros e m v. unfold dotf, l. rewrite (sumf_ext _ _ (fun _ => 0)) by (intros; ring).
-    rewrite (sumf_ext (d (snd e)) _ (fun _ => 0)) by (intros; ring). rewrite !sumf_zero. reflexivity.
+  - intros e [].
   - apply consistent_nil.
   - exact V.
   - apply consistent_nil. Qed.
